@@ -83,7 +83,11 @@ type kase struct {
 	// reactive[id]==true: this party's first message is computed AFTER it received a message (two-party protocols in
 	// which the parties alternate), so it may legitimately depend on the peer's randomness as well.
 	reactive map[ID]bool
-	run      func(x mcrt.Chooser, ks int64, sess int, taps map[ID]*tap) *outcome
+	// jointBy != nil: only these parties' randomness is meant to influence the joint outputs (nil = every party's).
+	jointBy map[ID]bool
+	// heavy: one execution costs seconds; the failing-source probe uses the quick index set in every tier.
+	heavy bool
+	run   func(x mcrt.Chooser, ks int64, sess int, taps map[ID]*tap) *outcome
 }
 
 type zeroChooser struct{}
